@@ -4003,6 +4003,9 @@ namespace detail {
                 }
                 else
                 {
+                    // the subschema applies to the member values: what it evaluates inside a value
+                    // must not be recorded as evaluated properties/items of this instance
+                    eval_context<Json> value_context{context, this->keyword(), evaluation_flags{}};
                     for (const auto& prop : instance.object_range()) 
                     {
                         // check if it is in "evaluated_properties"
@@ -4012,7 +4015,7 @@ namespace detail {
                             //std::cout << "Not in evaluated properties: " << prop.key() << "\n";
                             const std::size_t error_count = reporter.error_count();
                             jsonpointer::json_pointer prop_location = instance_location / prop.name();
-                            walk_state result = schema_val_->validate(this_context, prop.value(), prop_location, results, reporter, patch);
+                            walk_state result = schema_val_->validate(value_context, prop.value(), prop_location, results, reporter, patch);
                             if (result == walk_state::abort)
                             {
                                 return result;
